@@ -43,7 +43,8 @@ fn main() {
         let sys = py.import_bound("sys")?;
         let path = sys.getattr("path")?;
         let path = path.downcast::<PyList>()?;
-        path.insert(0, "/repo/lightmotif-py")?;
+        let repo = std::env::var("LMV_REPO").unwrap_or_else(|_| "/repo".to_string());
+        path.insert(0, format!("{}/lightmotif-py", repo))?;
         path.insert(0, format!("{}/py", verif))?;
         let module = PyModule::new_bound(py, "lightmotif.lib")?;
         lightmotif_py::init(py, &module)?;
